@@ -21,6 +21,14 @@ pub fn run(ctx: &mut Ctx) {
         let written = if asyncw {
             let pm = l.build_async();
             guard(|| write_async(pm))
+        } else if i % 3 == 1 {
+            // same logical archive, reached through detours (re-adds of identical bytes, replaced junk, removed extras)
+            ctx.count("archives_built_through_detours");
+            let built = guard(|| l.build_messy(&mut rng));
+            match built {
+                Ok(pm) => guard(|| write_sync(pm)),
+                Err(p) => Err(p),
+            }
         } else {
             let pm = l.build();
             guard(|| write_sync(pm))
